@@ -35,6 +35,7 @@ from _griffe.docstrings.models import (
 )
 from _griffe.docstrings.utils import docstring_warning, parse_docstring_annotation
 from _griffe.enumerations import DocstringSectionKind, LogLevel
+from _griffe.exceptions import AliasResolutionError, CyclicAliasError
 
 if TYPE_CHECKING:
     from re import Pattern
@@ -285,7 +286,7 @@ def _read_attributes_section(
             name = name_with_type
             # Each item starts without annotation: nothing is carried over from the previous one.
             annotation = None
-            with suppress(AttributeError, KeyError, TypeError, ValueError):
+            with suppress(AttributeError, KeyError, TypeError, ValueError, AliasResolutionError, CyclicAliasError):
                 # Use subscript syntax to fetch annotation from inherited members too.
                 annotation = docstring.parent[name].annotation  # type: ignore[index]
 
